@@ -851,13 +851,13 @@ func goElem(fd protoreflect.FieldDescriptor) int {
 }
 
 // goFixed: bytes one occurrence may allocate once, outside any growing slice: the pointee of a message (a new struct,
-// rounded up generously to its size class, plus what the nested Unmarshal call itself allocates), the copy of a short
-// string/bytes payload
+// rounded up generously to its size class, plus what the nested Unmarshal call itself allocates: measured ~190 bytes
+// per occurrence of an empty 40-byte message), the copy of a short string/bytes payload
 func (c *decCtx) goFixed(fd protoreflect.FieldDescriptor) int {
 	switch fd.Kind() {
 	case protoreflect.MessageKind, protoreflect.GroupKind:
 		if cmi := c.si.byName[fd.Message().FullName()]; cmi != nil && cmi.goType != nil {
-			return 2*int(cmi.goType.Size()) + 128
+			return 2*int(cmi.goType.Size()) + 256
 		}
 		return 2048
 	case protoreflect.StringKind, protoreflect.BytesKind:
@@ -904,7 +904,11 @@ func (c *decCtx) manyOcc(mi *msgInfo, b []byte, nrec, elem, fixed int, what stri
 	}
 	o.nontrivial(id + "/manyocc/" + what + "/" + hx(b[:minInt(len(b), 10)]))
 	o.withKey("decode/"+id).prop("C06", pan == nil, fmt.Sprintf("Unmarshal of %d occurrences of one field (%s; %s repeated) into %s panics: %v", nrec, what, hx(b[:minInt(len(b), 24)]), id, pan))
-	o.withKey("decode/"+id).prop("C06", alloc <= bound, fmt.Sprintf("Unmarshal of %d bytes = %d occurrences of one field (%s; starts %s) into %s allocated %d bytes, out of proportion to the input (linear bound %d = %d*(6*%d+%d+16) + 64K)", len(b), nrec, what, hx(b[:minInt(len(b), 24)]), id, alloc, bound, nrec, elem, fixed))
+	stream := hx(b)
+	if len(b) > 32<<10 {
+		stream = hx(b[:256]) + fmt.Sprintf("... (%d more bytes: the records go on in the same way)", len(b)-256)
+	}
+	o.withKey("decode/"+id).prop("C06", alloc <= bound, fmt.Sprintf("Unmarshal of %d bytes = %d occurrences of one field (%s) into %s allocated %d bytes, out of proportion to the input (linear bound %d = %d*(6*%d+%d+16) + 64K); stream %s", len(b), nrec, what, id, alloc, bound, nrec, elem, fixed, stream))
 	if pan != nil {
 		return
 	}
